@@ -79,24 +79,31 @@ def anyFind (ok : Schema → Bool) : List Schema → Nat → Option (Nat × Sche
   | [], _ => none
   | s :: rest, i => if ok s then some (i, s) else anyFind ok rest (i+1)
 
-/-- `UnionSchema::find_schema_with_known_schemata`; `ok s` = "the value resolves against `s`" -/
-def findBranchWith (ok : Schema → Bool) (branches : List Schema) (v : Value) : Option (Nat × Schema) :=
-  let (uk, nk) := v.kinds
-  let unnamed := match uk with
+/-- the unnamed candidate: the branch indexed under the value's unnamed kind; maps and arrays are
+checked against the value, everything else is taken on its kind alone -/
+def unnamedCand (ok : Schema → Bool) (branches : List Schema) : Option Kind → Option (Nat × Schema)
+  | none => none
+  | some k => match unnamedIndex k branches 0 with
     | none => none
-    | some k => match unnamedIndex k branches 0 with
-      | none => none
-      | some (i, s) =>
-        if s.baseKind == .map || s.baseKind == .array then (if ok s then some (i, s) else none)
-        else some (i, s)
-  let named := match nk with
-    | none => none
-    | some k => namedFind k ok branches 0
-  match unnamed, named with
+    | some (i, s) =>
+      if s.baseKind == Kind.map || s.baseKind == Kind.array then (if ok s then some (i, s) else none)
+      else some (i, s)
+
+def namedCand (ok : Schema → Bool) (branches : List Schema) : Option Kind → Option (Nat × Schema)
+  | none => none
+  | some k => namedFind k ok branches 0
+
+/-- the lower index of the two candidates; without candidates the slow path -/
+def pickBranch (ok : Schema → Bool) (branches : List Schema) :
+    Option (Nat × Schema) → Option (Nat × Schema) → Option (Nat × Schema)
   | some (ui, us), some (ni, ns) => if ui < ni then some (ui, us) else some (ni, ns)
   | some u, none => some u
   | none, some n => some n
   | none, none => anyFind ok branches 0
+
+/-- `UnionSchema::find_schema_with_known_schemata`; `ok s` = "the value resolves against `s`" -/
+def findBranchWith (ok : Schema → Bool) (branches : List Schema) (v : Value) : Option (Nat × Schema) :=
+  pickBranch ok branches (unnamedCand ok branches v.kinds.1) (namedCand ok branches v.kinds.2)
 
 /-! ### JSON → Value (`impl TryFrom<JsonValue> for Value`) -/
 
@@ -241,15 +248,23 @@ def resolveFieldsWith (f : Schema → Value → Except Err Value) :
         | .ok ws => .ok ((m.name, w) :: ws)
         | .error e => .error e
 
+/-- a union value against a non-union reader: the inner value; anything else: the value itself -/
+def unwrapFor (s : Schema) (v0 : Value) : Value :=
+  match v0 with
+  | .union _ inner => (match s with | .union _ => v0 | _ => inner)
+  | _ => v0
+
+/-- the value inside a union value; any other value itself -/
+def unionPayload : Value → Value
+  | .union _ w => w
+  | w => w
+
 /-- `Value::resolve_internal` -/
 def resolve (fo : FloatOps) (cfg : Cfg) (env : Names) : Nat → Schema → Value → Except Err Value
   | 0, _, _ => .error .fuel
   | fuel+1, s, v0 =>
     -- a union value against a non-union reader: pull the inner value out
-    let v := match v0, s with
-      | .union _ _, .union _ => v0
-      | .union _ inner, _ => inner
-      | _, _ => v0
+    let v := unwrapFor s v0
     match s with
     | .ref n => match env.find? n with
       | some s' => resolve fo cfg env fuel s' v
@@ -297,7 +312,7 @@ def resolve (fo : FloatOps) (cfg : Cfg) (env : Names) : Nat → Schema → Value
       | .bytes b => if b.length = size then .ok (.fixed size b) else .error .fixedSize
       | _ => .error .mismatch
     | .union bs =>
-      let inner := match v with | .union _ w => w | w => w
+      let inner := unionPayload v
       (match findBranchWith (fun b => (resolve fo cfg env fuel b inner).toBool) bs inner with
        | none => .error .mismatch
        | some (i, b) => match resolve fo cfg env fuel b inner with
@@ -323,9 +338,8 @@ def resolve (fo : FloatOps) (cfg : Cfg) (env : Names) : Nat → Schema → Value
       if scale > precision then .error .mismatch
       else if (match inner with | .fixed _ size => decide (maxPrecForLen size < precision) | .bytes => false) then .error .mismatch
       else match v with
-        | .decimal i len => if maxPrecForLen len < precision then .error .mismatch else .ok (.decimal i len)
-        | .fixed _ b | .bytes b =>
-          if maxPrecForLen b.length < precision then .error .mismatch else .ok (.decimal (fromSignedBE b) b.length)
+        | .decimal i len => .ok (.decimal i len)
+        | .fixed _ b | .bytes b => .ok (.decimal (fromSignedBE b) b.length)
         | .string u => (match latin1OfUtf8 u with
           | some b => .ok (.decimal (fromSignedBE b) b.length)
           | none => .error .mismatch)
